@@ -240,11 +240,23 @@ def exec_case(mod, case, ctx):
     return None
 
 
-def hyp_settings(n):
+def hyp_settings(n, shrink=True):
     from hypothesis import settings, Phase, HealthCheck, Verbosity
     return settings(max_examples=max(1, n), deadline=None, database=None, derandomize=False,
                     report_multiple_bugs=False, suppress_health_check=list(HealthCheck),
-                    phases=[Phase.generate, Phase.shrink], verbosity=Verbosity.quiet, print_blob=False)
+                    phases=[Phase.generate, Phase.shrink] if shrink else [Phase.generate],
+                    verbosity=Verbosity.quiet, print_blob=False)
+
+
+def _minimised(mod, case, v):
+    """modules whose cases are expensive (scheduler runs) minimise on their own (ddmin) instead of Hypothesis' shrinker"""
+    hook = getattr(mod, "minimize", None)
+    if hook is None:
+        return case
+    try:
+        return hook(case, v.sig)
+    except Exception:  # noqa: minimisation is best effort, the unminimised case is still a valid replay
+        return case
 
 
 def run_hyp_part(mod, part, strat, n, seedval, stats, found, exclude, shrink=True, max_rounds=6):
@@ -278,13 +290,13 @@ def run_hyp_part(mod, part, strat, n, seedval, stats, found, exclude, shrink=Tru
             state["last"] = (case, v)
             raise v
 
-        test = seed(seedval + 7919 * rounds)(hyp_settings(remaining)(given(strat)(body)))
+        test = seed(seedval + 7919 * rounds)(hyp_settings(remaining, shrink and getattr(mod, "HYP_SHRINK", True))(given(strat)(body)))
         try:
             test()
             break
         except Violation:
             case, v = state["last"]
-            found[v.sig] = (case, v)
+            found[v.sig] = (_minimised(mod, case, v), v)
             remaining -= state["count"]
             rounds += 1
     return
@@ -302,7 +314,7 @@ def run_enum_part(mod, part, gen, shard, nshards, stats, found, exclude, limit_p
             v = None
         stats.add(part, case, ctx, ctx.extra.get("distinct_key"))
         if v is not None and v.sig not in found:
-            found[v.sig] = (case, v)
+            found[v.sig] = (_minimised(mod, case, v), v)
 
 
 def jsonable(x):
